@@ -322,6 +322,34 @@ Definition live (g : gvk) (evs : list event) : nat := live_from g evs 0.
 (** All events of a run, in order. *)
 Definition history (tr : list (output * state)) : list event := flat_map (fun p => o_events (fst p)) tr.
 
+(** Reads of objects through the cache.  An object is identified by (namespace, name), numbers; namespace
+    0 is "none".  [scope g]: the kind is namespaced - the scope the API declares, which the informer map
+    asks the RESTMapper for when it creates the reader of a kind (informer_map.go:164-175), NOT something
+    derived from the object the informer was requested for.  [store g]: the objects the informer of the
+    kind holds.  CacheReader.Get blanks the namespace of the key for cluster-scoped kinds
+    (cache_reader.go:61-64); CacheReader.List selects by the namespace index if a namespace is given
+    (cache_reader.go:126-130).  Both are reached only if the kind has a reference entry
+    (cache.go: CacheNotStartedError otherwise). *)
+Definition key := (N * N)%type.
+Definition key_eqb (a b : key) : bool := (fst a =? fst b) && (snd a =? snd b).
+
+Definition store_key (scope : gvk -> bool) (g : gvk) (ns n : N) : key := (if scope g then ns else 0, n).
+
+(** [None]: CacheNotStartedError; [Some None]: not found; [Some (Some k)]: the object stored under k. *)
+Definition cache_get (scope : gvk -> bool) (store : gvk -> list key) (s : state) (g : gvk) (ns n : N)
+  : option (option key) :=
+  match lookup g (refs s) with
+  | None => None
+  | Some _ => let k := store_key scope g ns n in
+              Some (if existsb (key_eqb k) (store g) then Some k else None)
+  end.
+
+Definition cache_list (store : gvk -> list key) (s : state) (g : gvk) (ns : N) : option (list key) :=
+  match lookup g (refs s) with
+  | None => None
+  | Some _ => Some (if ns =? 0 then store g else filter (fun k => fst k =? ns) (store g))
+  end.
+
 (** Predicates on operation sequences. *)
 Definition start_failure (out : outcome) : bool :=
   match out with
